@@ -1692,7 +1692,7 @@ fn main() {
 		finish(&ctx, ev, x.violations, None);
 	}
 
-	let total: u64 = ctx.arg_value("--requests").and_then(|s| s.parse().ok()).unwrap_or(ctx.tier.pick(200_000, 5_000_000));
+	let total: u64 = ctx.arg_value("--requests").and_then(|s| s.parse().ok()).unwrap_or(ctx.tier.pick(200_000, 20_000_000));
 	let shards: u64 = ctx.tier.pick(32, 192);
 	let with_limit = !ctx.args.iter().any(|a| a == "--no-limit-cases");
 	let results = run_parallel((0..shards).collect(), |_, s| {
